@@ -73,6 +73,7 @@ fn main() {
         "C15" => c15::run(tier, replay),
         "C16" => c16::run(tier, replay),
         "c17-emfile" => c17::child_emfile(),
+        "c18-emfile" => c18::child_emfile(),
         "selftest-hang" => {
             // machinery self-test: one job whose only execution never returns must end as an `execution-hung`
             // violation (exit 1) after the watchdog deadline, not as a hang of the check
